@@ -1,5 +1,6 @@
 From QV Require Import model.Sem proofs.SemProofs proofs.ScopeProofs proofs.FrameProofs.
-From QV Require Import model.Base model.Lang model.Types model.Tir model.Ceval model.Builder proofs.BuilderInv proofs.BuilderSafe.
+From QV Require Import model.Base model.Lang model.Types model.Tir model.Ceval model.Builder proofs.BuilderInv.
+From QV Require Import proofs.BuilderSafe.
 From Coq Require Import Arith Lia.
 Open Scope nat_scope.
 Open Scope list_scope.
@@ -11,8 +12,10 @@ Definition StmtPost (n : nat) (st : bstate) (r : out sres * bstate) : Prop :=
   | (V (ok, env'), st') => RegB n st st' /\ envwf (nloc st') env'
   | (F, st') => RegB n st st'
   end.
-Definition SafeS (env : lenv) (m : M sres) : Prop :=
-  forall st n, Good st -> envwf (nloc st) env -> n <= nb st -> StmtPost n st (m st).
+(* [bk]: the labels a break may jump to are below bk (0 when there is none) *)
+Definition bound_of (brk : option nat) : nat := match brk with Some x => S (S x) | None => 0 end.
+Definition SafeS (env : lenv) (bk : nat) (m : M sres) : Prop :=
+  forall st n, Good st -> envwf (nloc st) env -> bk <= nb st -> n <= nb st -> StmtPost n st (m st).
 
 Lemma envwf_mono L L' env : envwf L env -> L <= L' -> envwf L' env.
 Proof. intros H Hl x l k Hx. specialize (H x l k Hx). lia. Qed.
@@ -20,9 +23,9 @@ Lemma RegB_nloc n s s' : RegB n s s' -> nloc s <= nloc s'.
 Proof. apply RegB_locals. Qed.
 
 (* a Safe computation whose result is (b, env) for the env we started with *)
-Lemma SafeS_of_Safe env (m : M sres) : (forall L, envwf L env -> Safe L m) -> (forall st a st', m st = (V a, st') -> snd a = env) -> SafeS env m.
+Lemma SafeS_of_Safe env bk (m : M sres) : (forall L, envwf L env -> Safe L m) -> (forall st a st', m st = (V a, st') -> snd a = env) -> SafeS env bk m.
 Proof.
-  intros Hs Hr st n G Hw Hn. specialize (Hs (nloc st) Hw st n G (le_n _) Hn). unfold StmtPost.
+  intros Hs Hr st n G Hw _ Hn. specialize (Hs (nloc st) Hw st n G (le_n _) Hn). unfold StmtPost.
   destruct (m st) as [[[ok env']| |x] st'] eqn:E; auto. split; [exact Hs|].
   specialize (Hr _ _ _ E). cbn in Hr. subst env'. eapply envwf_mono; [exact Hw|]. eapply RegB_nloc. exact Hs.
 Qed.
@@ -30,21 +33,31 @@ Qed.
 Lemma Safe_sfail L env : Safe L (sfail env). Proof. apply Safe_ret. Qed.
 #[export] Hint Resolve Safe_sfail : safe.
 
-Lemma finalize_current_push_safe L t : Safe L (let! r := current_ref in let! _ := finalize_at r t in push_block).
+Lemma finalize_current_push_spec t s n : Good s -> n <= nb s -> tgt_ok t (nb s) (nb s - 1) ->
+  match (let! r := current_ref in let! _ := finalize_at r t in push_block) s with (P _, _) => False | (_, s') => RegB n s s' end.
 Proof.
-  intros s n G HL Hn. pose proof G as [G1 [c [Hc Hct]]].
+  intros G Hn Htg. pose proof G as [G1 [[c [Hc Hct]] GT]].
   unfold mbind at 1. unfold current_ref. unfold nb in *. destruct (bs_blocks s) as [|b0 bl] eqn:Eb; [cbn in G1; lia|]. rewrite <- Eb in *.
   unfold mbind at 1. unfold finalize_at, with_block. rewrite Hc. unfold b_finalize. rewrite Hct. cbn.
   split; cbn.
-  - unfold Good, nb, opened. cbn. rewrite app_length, update_nth_length. cbn. split; [lia|]. exists block0. split; [|reflexivity].
-    rewrite nth_error_app2 by (rewrite update_nth_length; lia). rewrite update_nth_length. replace (_ - _) with 0 by lia. reflexivity.
+  - unfold Good. split; [unfold nb; cbn; rewrite app_length, update_nth_length; cbn; lia|]. split.
+    + unfold nb, opened. cbn. rewrite app_length, update_nth_length. cbn. exists block0. split; [|reflexivity].
+      rewrite nth_error_app2 by (rewrite update_nth_length; lia). rewrite update_nth_length. replace (_ - _) with 0 by lia. reflexivity.
+    + intros i b t0 Hi Hbt. unfold nb. cbn in Hi |- *. rewrite app_length, update_nth_length. cbn.
+      destruct (Nat.lt_ge_cases i (List.length (bs_blocks s))) as [Hlt|Hge].
+      * rewrite nth_error_app1 in Hi by (rewrite update_nth_length; exact Hlt).
+        destruct (Nat.eq_dec (List.length (bs_blocks s) - 1) i) as [Heq|Hne].
+        -- subst i. erewrite update_nth_same in Hi by exact Hc. inversion Hi; subst. cbn in Hbt. inversion Hbt; subst.
+           eapply tgt_ok_mono; [|exact Htg]. lia.
+        -- rewrite update_nth_other in Hi by exact Hne. eapply tgt_ok_mono; [|eapply GT; eassumption]. unfold nb. lia.
+      * rewrite nth_error_app2 in Hi by (rewrite update_nth_length; exact Hge). rewrite update_nth_length in Hi.
+        destruct (i - List.length (bs_blocks s)) as [|k]; cbn in Hi; [inversion Hi; subst; discriminate|destruct k; discriminate].
   - unfold nb. cbn. rewrite app_length, update_nth_length. lia.
   - intros i Hi. rewrite nth_error_app1 by (rewrite update_nth_length; lia). apply update_nth_other. lia.
   - exists []. rewrite app_nil_r. reflexivity.
 Qed.
-Lemma Safe_visit_break L x : Safe L (visit_break x). Proof. apply finalize_current_push_safe. Qed.
-Lemma Safe_visit_return L v : Safe L (visit_return v). Proof. apply finalize_current_push_safe. Qed.
-#[export] Hint Resolve Safe_visit_break Safe_visit_return : safe.
+Lemma Safe_visit_return L v : Safe L (visit_return v). Proof. intros s n G _ Hn. apply finalize_current_push_spec; [exact G|exact Hn|exact I]. Qed.
+#[export] Hint Resolve Safe_visit_return : safe.
 
 (* ---- postconditions that see the final state ---- *)
 Definition SafeQS (L : nat) {A} (m : M A) (Q : A -> bstate -> Prop) : Prop :=
@@ -77,14 +90,14 @@ Lemma visit_if_safe cond cr qr ar s n :
 Proof.
   intros G Oc Oq Hcq Hn Ha. unfold visit_if. unfold mbind at 1.
   assert (Hq : qr + 1 < nb s) by (destruct ar as [a|]; [destruct Ha as (_ & ? & ?); lia|exact Ha]).
-  destruct (finalize_spec s cr (TmBrCond cond (S cr) (S qr)) G Oc ltac:(lia)) as (s1 & E1 & N1 & G1 & L1 & K1). rewrite E1.
+  destruct (finalize_spec s cr (TmBrCond cond (S cr) (S qr)) G Oc ltac:(lia) ltac:(cbn; lia)) as (s1 & E1 & N1 & G1 & L1 & K1). rewrite E1.
   assert (Oq1 : opened s1 qr) by (apply (opened_eq s); [apply K1; lia|exact Oq]).
   cbv zeta. unfold mbind at 1.
-  destruct (finalize_spec s1 qr (TmBr (S match ar with Some a => a | None => qr end)) G1 Oq1 ltac:(lia)) as (s2 & E2 & N2 & G2 & L2 & K2). rewrite E2.
+  destruct (finalize_spec s1 qr (TmBr (S match ar with Some a => a | None => qr end)) G1 Oq1 ltac:(lia) ltac:(cbn; destruct ar as [a0|]; [destruct Ha as (_ & ? & ?)|]; lia)) as (s2 & E2 & N2 & G2 & L2 & K2). rewrite E2.
   destruct ar as [a|].
   - destruct Ha as (Oa & Hqa & Han).
     assert (Oa2 : opened s2 a) by (apply (opened_eq s1); [apply K2; lia|apply (opened_eq s); [apply K1; lia|exact Oa]]).
-    destruct (finalize_spec s2 a (TmBr (S a)) G2 Oa2 ltac:(lia)) as (s3 & E3 & N3 & G3 & L3 & K3). rewrite E3.
+    destruct (finalize_spec s2 a (TmBr (S a)) G2 Oa2 ltac:(lia) ltac:(cbn; lia)) as (s3 & E3 & N3 & G3 & L3 & K3). rewrite E3.
     split; [exact G3|lia| |exists []; rewrite app_nil_r; congruence].
     intros i Hi. rewrite K3, K2, K1 by lia. reflexivity.
   - cbn. split; [exact G2|lia| |exists []; rewrite app_nil_r; congruence].
@@ -94,20 +107,26 @@ Qed.
 Section Stmts.
   Variable E : cenv.
 
-  Lemma SafeS_expr env brk e : SafeS env (walk_stmt E env brk (SExpr e)).
+  Lemma SafeS_expr env brk e : SafeS env (bound_of brk) (walk_stmt E env brk (SExpr e)).
   Proof.
     apply SafeS_of_Safe.
     - intros L Hw. cbn [walk_stmt]. apply Safe_bind; [apply Safe_attempt, Safe_rv, walk_expr_safe, Hw|intros v]. destruct v; safe_auto.
     - intros st a st' H. exact (walk_stmt_no_leak (SExpr e) E env brk eq_refl st a st' H).
   Qed.
 
-  Lemma SafeS_break env brk l : SafeS env (walk_stmt E env brk (SBreak l)).
+  Lemma SafeS_break env brk l : SafeS env (bound_of brk) (walk_stmt E env brk (SBreak l)).
   Proof.
-    apply SafeS_of_Safe.
-    - intros L Hw. cbn [walk_stmt]. destruct l; [|destruct brk]; safe_auto.
-    - intros st a st' H. exact (walk_stmt_no_leak (SBreak l) E env brk eq_refl st a st' H).
+    intros st n G Hw Hb Hn. cbn [walk_stmt].
+    assert (Hfail : forall d, StmtPost n st ((let! _ := attempt (fail (A:=unit) d) in sfail env) st)).
+    { intros d. cbn. split; [|exact Hw]. apply RegB_same_blocks; [exact G|reflexivity|exists []; rewrite app_nil_r; reflexivity]. }
+    destruct l; [apply Hfail|]. destruct brk as [x|]; [|apply Hfail].
+    unfold mbind at 1. cbn [bound_of] in Hb.
+    pose proof (finalize_current_push_spec (TmBr x) st n G Hn ltac:(cbn; lia)) as R. fold (visit_break x) in R.
+    destruct (visit_break x st) as [[u| |y] s1]; [| |exact R].
+    - cbn. split; [exact R|]. eapply envwf_mono; [exact Hw|eapply RegB_locals, R].
+    - exact R.
   Qed.
-  Lemma SafeS_return env brk e : SafeS env (walk_stmt E env brk (SReturn e)).
+  Lemma SafeS_return env brk e : SafeS env (bound_of brk) (walk_stmt E env brk (SReturn e)).
   Proof.
     apply SafeS_of_Safe.
     - intros L Hw. cbn [walk_stmt]. apply Safe_bind; [destruct e; [apply Safe_attempt, Safe_rv, walk_expr_safe, Hw|apply Safe_ret]|intros v]. destruct v; safe_auto.
@@ -137,9 +156,9 @@ Section Stmts.
         pose proof (visit_local_declaration_safe L t s n G HL Hn) as H. destruct (visit_local_declaration t s) as [[l| |x] s1]; try exact H.
   Qed.
 
-  Lemma SafeS_decls k : forall vars env, SafeS env (walk_decls E k env vars).
+  Lemma SafeS_decls k : forall vars env bk, SafeS env bk (walk_decls E k env vars).
   Proof.
-    induction vars as [|[[name ty] value] rest IH]; intros env st n G Hw Hn; cbn [walk_decls].
+    induction vars as [|[[name ty] value] rest IH]; intros env bk st n G Hw Hb Hn; cbn [walk_decls].
     - cbn. split; [apply RegB_refl, G|exact Hw].
     - unfold mbind at 1. unfold attempt.
       pose proof (decl_head_safe (nloc st) k env value ty Hw st n G (le_n _) Hn) as H.
@@ -154,9 +173,9 @@ Section Stmts.
       + unfold mbind at 1. unfold attempt.
         pose proof (Safe_visit_local_assignment (nloc s1) E local v Hl s1 n G1 (le_n _) ltac:(lia)) as H2.
         destruct (visit_local_assignment E local v s1) as [[a| |x] s2]; [| |exact H2].
-        * specialize (IH ((name, (local, k)) :: env) s2 n (g_good _ _ _ H2)).
+        * specialize (IH ((name, (local, k)) :: env) bk s2 n (g_good _ _ _ H2)).
           assert (Hw2 : envwf (nloc s2) ((name, (local, k)) :: env)) by (eapply envwf_mono; [exact Hw1|eapply RegB_nloc, H2]).
-          specialize (IH Hw2 ltac:(pose proof (g_len _ _ _ H2); lia)). unfold StmtPost in *.
+          specialize (IH Hw2 ltac:(pose proof (g_len _ _ _ H2); lia) ltac:(pose proof (g_len _ _ _ H2); lia)). unfold StmtPost in *.
           destruct (walk_decls E k ((name, (local, k)) :: env) rest s2) as [[[ok env']| |x] s3]; [| |exact IH].
           -- destruct IH as [R3 W3]. split; [eapply RegB_trans; [exact R1|eapply RegB_trans; eassumption]|exact W3].
           -- eapply RegB_trans; [exact R1|eapply RegB_trans; eassumption].
@@ -164,27 +183,27 @@ Section Stmts.
       + unfold mbind at 1. cbn [mark_exempt].
         set (s2 := {| bs_blocks := bs_blocks s1; bs_locals := bs_locals s1; bs_nparams := bs_nparams s1; bs_diags := bs_diags s1; bs_exempt := local :: bs_exempt s1 |}).
         assert (R2 : RegB n s1 s2) by (apply RegB_same_blocks; [exact G1|reflexivity|exists []; rewrite app_nil_r; reflexivity]).
-        specialize (IH ((name, (local, k)) :: env) s2 n (g_good _ _ _ R2) Hw1 ltac:(unfold nb in *; cbn; lia)). unfold StmtPost in *.
+        specialize (IH ((name, (local, k)) :: env) bk s2 n (g_good _ _ _ R2) Hw1 ltac:(unfold nb in *; cbn; lia) ltac:(unfold nb in *; cbn; lia)). unfold StmtPost in *.
         destruct (walk_decls E k ((name, (local, k)) :: env) rest s2) as [[[ok env']| |x] s3]; [| |exact IH].
         * destruct IH as [R3 W3]. split; [eapply RegB_trans; [exact R1|eapply RegB_trans; eassumption]|exact W3].
         * eapply RegB_trans; [exact R1|eapply RegB_trans; eassumption].
   Qed.
-  Lemma SafeS_run env m st : SafeS env m -> Good st -> envwf (nloc st) env -> StmtPost (nb st) st (m st).
-  Proof. intros H G Hw. apply H; auto. Qed.
+  Lemma SafeS_run env bk m st : SafeS env bk m -> Good st -> envwf (nloc st) env -> bk <= nb st -> StmtPost (nb st) st (m st).
+  Proof. intros H G Hw Hb. apply H; auto. Qed.
 
   Lemma mark_RegB s : Good s -> exists s', mark_branch_point s = (V (nb s - 1), s') /\ RegB (nb s) s s' /\ nb s' = nb s + 1 /\ nloc s' = nloc s /\
                                      opened s' (nb s - 1) /\ (forall i, i < nb s -> nth_error (bs_blocks s') i = nth_error (bs_blocks s) i).
   Proof.
     intros G. destruct (mark_spec s G) as (s' & E1 & N1 & G1 & L1 & K1). exists s'. split; [exact E1|]. split; [|split; [exact N1|split; [unfold nloc; rewrite L1; reflexivity|split; [|exact K1]]]].
     - split; [exact G1|lia| |exists []; rewrite app_nil_r; exact L1]. intros i Hi. apply K1. lia.
-    - pose proof G as [Ga O]. apply (opened_eq s); [apply K1; lia|exact O].
+    - pose proof G as [Ga [O _]]. apply (opened_eq s); [apply K1; lia|exact O].
   Qed.
 
   Lemma SafeS_if c t e :
-    (forall env brk, SafeS env (walk_stmt E env brk t)) -> (forall n, e = Some n -> forall env brk, SafeS env (walk_stmt E env brk n)) ->
-    forall env brk, SafeS env (walk_stmt E env brk (SIf c t e)).
+    (forall env brk, SafeS env (bound_of brk) (walk_stmt E env brk t)) -> (forall n, e = Some n -> forall env brk, SafeS env (bound_of brk) (walk_stmt E env brk n)) ->
+    forall env brk, SafeS env (bound_of brk) (walk_stmt E env brk (SIf c t e)).
   Proof.
-    intros IHt IHe env brk st n G Hw Hn. cbn [walk_stmt].
+    intros IHt IHe env brk st n G Hw Hbk Hn. cbn [walk_stmt].
     (* the condition *)
     unfold mbind at 1. unfold attempt.
     pose proof (Safe_run (nloc st) (walk_rvalue E env c) st ltac:(unfold walk_rvalue; apply Safe_rv, walk_expr_safe, Hw) G (le_n _)) as R1.
@@ -196,7 +215,7 @@ Section Stmts.
     assert (R02 : RegB (nb st) st s2) by (eapply RegB_trans; [exact R1|eapply RegB_weaken; [|exact R2]; lia]).
     (* the then arm *)
     unfold mbind at 1.
-    pose proof (SafeS_run env _ s2 (IHt env brk) G2 ltac:(eapply envwf_mono; [exact Hw|lia])) as R3. unfold StmtPost in R3.
+    pose proof (SafeS_run env _ _ s2 (IHt env brk) G2 ltac:(eapply envwf_mono; [exact Hw|lia]) ltac:(lia)) as R3. unfold StmtPost in R3.
     destruct (walk_stmt E env brk t s2) as [[[okt envt]| |x] s3]; [| |exact R3].
     2:{ eapply RegB_weaken; [exact Hn|]. eapply RegB_trans; [exact R02|eapply RegB_weaken; [|exact R3]; lia]. }
     destruct R3 as [R3 W3]. cbn [fst snd].
@@ -223,7 +242,7 @@ Section Stmts.
                     end).
     { destruct e as [n0|].
       - unfold mbind at 1.
-        pose proof (SafeS_run envt _ s4 (IHe n0 eq_refl envt brk) G4 W4) as R5. unfold StmtPost in R5.
+        pose proof (SafeS_run envt _ _ s4 (IHe n0 eq_refl envt brk) G4 W4 ltac:(lia)) as R5. unfold StmtPost in R5.
         destruct (walk_stmt E envt brk n0 s4) as [[[oke enve]| |x] s5]; [| |exact R5].
         2:{ eapply RegB_trans; [exact R04|eapply RegB_weaken; [|exact R5]; lia]. }
         destruct R5 as [R5 W5]. cbn [fst snd].
@@ -254,16 +273,16 @@ Section Stmts.
     - cbn. split; [eapply RegB_weaken; [exact Hn|eapply RegB_trans; eassumption]|]. eapply envwf_mono; [exact W6|eapply RegB_nloc, R8].
     - eapply RegB_weaken; [exact Hn|eapply RegB_trans; eassumption].
   Qed.
-  Lemma SafeS_nodes (w : lenv -> stmt -> M sres) l : Forall (fun x => forall env, SafeS env (w env x)) l ->
-    forall env, SafeS env ((fix go (env : lenv) (l : list stmt) : M sres :=
+  Lemma SafeS_nodes bk (w : lenv -> stmt -> M sres) l : Forall (fun x => forall env, SafeS env bk (w env x)) l ->
+    forall env, SafeS env bk ((fix go (env : lenv) (l : list stmt) : M sres :=
                               match l with [] => ret (true, env) | x :: r => let! a := w env x in let! b := go (snd a) r in ret (fst a && fst b, snd b) end) env l).
   Proof.
-    induction 1 as [|x r Hx Hr IH]; intros env st n G Hw Hn.
+    induction 1 as [|x r Hx Hr IH]; intros env st n G Hw Hb Hn.
     - cbn. split; [apply RegB_refl, G|exact Hw].
-    - unfold mbind at 1. pose proof (Hx env st n G Hw Hn) as R1. unfold StmtPost in R1.
+    - unfold mbind at 1. pose proof (Hx env st n G Hw Hb Hn) as R1. unfold StmtPost in R1.
       destruct (w env x st) as [[[ok1 env1]| |x0] s1]; [| |exact R1]; [|exact R1].
       destruct R1 as [R1 W1]. cbn [snd fst]. unfold mbind at 1.
-      pose proof (IH env1 s1 n (g_good _ _ _ R1) W1 ltac:(pose proof (g_len _ _ _ R1); lia)) as R2. unfold StmtPost in R2.
+      pose proof (IH env1 s1 n (g_good _ _ _ R1) W1 ltac:(pose proof (g_len _ _ _ R1); lia) ltac:(pose proof (g_len _ _ _ R1); lia)) as R2. unfold StmtPost in R2.
       match type of R2 with match ?m s1 with _ => _ end => destruct (m s1) as [[[ok2 env2]| |x0] s2] end; [| |exact R2].
       + destruct R2 as [R2 W2]. cbn. split; [eapply RegB_trans; eassumption|exact W2].
       + eapply RegB_trans; eassumption.
@@ -277,15 +296,15 @@ Section Stmts.
     | _ => true
     end.
 
-  Theorem walk_stmt_safe_noswitch : forall s, noswitch s = true -> forall env brk, SafeS env (walk_stmt E env brk s).
+  Theorem walk_stmt_safe_noswitch : forall s, noswitch s = true -> forall env brk, SafeS env (bound_of brk) (walk_stmt E env brk s).
   Proof.
-    apply (stmt_ind' (fun s => noswitch s = true -> forall env brk, SafeS env (walk_stmt E env brk s))).
+    apply (stmt_ind' (fun s => noswitch s = true -> forall env brk, SafeS env (bound_of brk) (walk_stmt E env brk s))).
     - intros e _ env brk. apply SafeS_expr.
     - intros ss Hss Hn env brk. cbn [noswitch] in Hn. rewrite forallb_forall in Hn.
-      intros st n G Hw Hnn. cbn [walk_stmt]. unfold mbind at 1.
-      assert (HF : Forall (fun x => forall env0, SafeS env0 (walk_stmt E env0 brk x)) ss).
+      intros st n G Hw Hb Hnn. cbn [walk_stmt]. unfold mbind at 1.
+      assert (HF : Forall (fun x => forall env0, SafeS env0 (bound_of brk) (walk_stmt E env0 brk x)) ss).
       { apply Forall_forall. intros x Hx env0. rewrite Forall_forall in Hss. apply Hss; [exact Hx|apply Hn, Hx]. }
-      pose proof (SafeS_nodes (fun env0 x => walk_stmt E env0 brk x) ss HF env st n G Hw Hnn) as R. unfold StmtPost in R.
+      pose proof (SafeS_nodes (bound_of brk) (fun env0 x => walk_stmt E env0 brk x) ss HF env st n G Hw Hb Hnn) as R. unfold StmtPost in R.
       match type of R with match ?m st with _ => _ end => destruct (m st) as [[[ok env']| |x0] s1] end; [| |exact R].
       + destruct R as [R W]. cbn. split; [exact R|]. eapply envwf_mono; [exact Hw|eapply RegB_nloc, R].
       + exact R.
